@@ -1,0 +1,56 @@
+// Copyright 2018-2019 The logrange Authors
+//
+// Licensed under the Apache License, Version 2.0 (the "License");
+// you may not use this file except in compliance with the License.
+// You may obtain a copy of the License at
+//
+//     http://www.apache.org/licenses/LICENSE-2.0
+//
+// Unless required by applicable law or agreed to in writing, software
+// distributed under the License is distributed on an "AS IS" BASIS,
+// WITHOUT WARRANTIES OR CONDITIONS OF ANY KIND, either express or implied.
+// See the License for the specific language governing permissions and
+// limitations under the License.
+
+package utils
+
+import (
+	"fmt"
+
+	"github.com/logrange/range/pkg/utils/encoding/xbinary"
+)
+
+// UnmarshalBytes is xbinary.UnmarshalBytes for buffers whose content is not trusted (requests
+// received from the network, records read back from a storage): it returns an error, instead of
+// slicing out of range, when the length prefix does not describe a part of buf.
+func UnmarshalBytes(buf []byte, newBuf bool) (int, []byte, error) {
+	if err := checkBytesLen(buf); err != nil {
+		return 0, nil, err
+	}
+	return xbinary.UnmarshalBytes(buf, newBuf)
+}
+
+// UnmarshalString is xbinary.UnmarshalString with the length prefix checked, see UnmarshalBytes.
+func UnmarshalString(buf []byte, newBuf bool) (int, string, error) {
+	if err := checkBytesLen(buf); err != nil {
+		return 0, "", err
+	}
+	return xbinary.UnmarshalString(buf, newBuf)
+}
+
+// checkBytesLen reads the length prefix of a marshaled slice of bytes the way xbinary.UnmarshalBytes
+// does and rejects the values that function cannot handle: it compares len(buf) with ln+idx only, so a
+// prefix that is negative as an int (2^63 and above), or that overflows when the size of the prefix is
+// added, passes its test and the slice expression buf[idx:idx+ln] panics.
+func checkBytesLen(buf []byte) error {
+	idx, uln, err := xbinary.UnmarshalUint(buf)
+	if err != nil {
+		return err
+	}
+
+	ln := int(uln)
+	if ln < 0 || ln+idx < idx {
+		return fmt.Errorf("wrong length %d of a marshaled slice of bytes, the buf size is %d", uln, len(buf)-idx)
+	}
+	return nil
+}
